@@ -133,22 +133,79 @@ fn judge(x: &str, s: &Setting, z: &Sanitizer, st: &mut Stats) -> Option<(String,
     None
 }
 
-fn tera_sanitize(x: &str, s: &Setting) -> Result<String, String> {
-    // bind the template function sanitize(...) to the direct call
-    use zerv::cli::utils::template::Template;
-    let mut args = vec![format!("value=v")];
+/// The template function `sanitize(...)` written for one setting over the template value `var`; None when the setting
+/// cannot be expressed there (the key preset has no name in the function, max_length=... with a preset is refused).
+fn tera_expr(var: &str, s: &Setting) -> Option<String> {
+    let mut args = vec![format!("value={var}")];
     match s.preset {
-        Some("key") => return Err("skip".into()),
+        Some("key") => return None,
         Some(p) => args.push(format!("preset=\"{p}\"")),
         None => {
-            if let Some(sep) = s.sep { args.push(format!("separator=\"{sep}\"")); } else { return Err("skip".into()); }
+            if let Some(sep) = s.sep { if sep.contains('"') { return None; } args.push(format!("separator=\"{sep}\"")); }
             args.push(format!("lowercase={}", s.lower));
             args.push(format!("keep_zeros={}", s.keep));
             if let Some(m) = s.max { args.push(format!("max_length={m}")); }
         }
     }
-    let _ = (x, Template::<String>::new(String::new()));
-    Err("skip".into())
+    Some(format!("sanitize({})", args.join(", ")))
+}
+
+const USEP: &str = "\u{1}";
+
+/// Bind the template function to the direct call: for the value reachable as `var` in `z` (whose text form is `text`)
+/// every expressible setting, rendered in one template, must give exactly what Sanitizer::sanitize gives on `text`.
+fn judge_template(ctx: &Ctx, z: &zerv::version::zerv::Zerv, var: &str, text: &str, kind: &str, sets: &[Setting], built: &[Sanitizer], st: &mut Stats) {
+    use zerv::cli::utils::output_formatter::OutputFormatter;
+    use zerv::cli::utils::template::Template;
+    let idx: Vec<usize> = (0..sets.len()).filter(|&i| tera_expr(var, &sets[i]).is_some()).collect();
+    let t = format!("[{}]", idx.iter().map(|&i| format!("{{{{ {} }}}}", tera_expr(var, &sets[i]).unwrap())).collect::<Vec<_>>().join(USEP));
+    st.inc("template_renders");
+    let key = |i: usize| format!("{kind} {var} = {text:?} [{}]", sets[i].name);
+    let case = |i: usize| json!({"kind": "template", "value_kind": kind, "var": var, "text": text, "setting": sets[i].name});
+    let out = match catch(|| OutputFormatter::format_output(z, "semver", None, &Some(Template::new(t.clone()))).map_err(|e| e.to_string())) {
+        Err(p) => { ctx.violation(&format!("panic@{}", p.file()), key(idx[0]), case(idx[0]), format!("panic {} at {}", p.message, p.location)); return; }
+        Ok(Err(e)) => { ctx.violation("template_function_failed", key(idx[0]), case(idx[0]), e); return; }
+        Ok(Ok(o)) => o,
+    };
+    let inner = match out.strip_prefix('[').and_then(|o| o.strip_suffix(']')) { Some(i) => i, None => { ctx.violation("template_function_output_shape", key(idx[0]), case(idx[0]), format!("{out:?}")); return; } };
+    let parts: Vec<&str> = inner.split(USEP).collect();
+    if parts.len() != idx.len() { ctx.violation("template_function_output_shape", key(idx[0]), case(idx[0]), format!("{} parts for {} calls: {out:?}", parts.len(), idx.len())); return; }
+    for (k, &i) in idx.iter().enumerate() {
+        st.inc("template_function_calls");
+        st.inc("evaluations");
+        // the direct call on the same text is judged against R-SAN here as well, so the binding has no blind spot
+        if let Some((class, detail)) = judge(text, &sets[i], &built[i], st) { ctx.violation(&class, format!("{text:?} [{}]", sets[i].name), json!({"input": text, "setting": sets[i].name}), detail); }
+        let want = match catch(|| built[i].sanitize(text)) { Ok(w) => w, Err(_) => continue };
+        if parts[k] != want { ctx.violation("template_function_differs_from_sanitizer", key(i), case(i), format!("sanitize(...) in a template gave {:?}, Sanitizer::sanitize gives {want:?}", parts[k])); }
+    }
+}
+
+fn template_layer(ctx: &Ctx, sets: &[Setting], built: &[Sanitizer], sigma: &[&str], max_len: usize) -> Stats {
+    use zvharness::refmodel::ren::{RComp, RSchema, RVar, RVars};
+    let schema = RSchema { core: vec![RComp::Var(RVar::Major)], extra_core: vec![], build: vec![] };
+    // (1) text values: every string of the trie as the branch name
+    let mut st = for_each_string(sigma, max_len, |x, _n, st| {
+        st.inc("template_text_values");
+        let v = RVars { major: Some(1), bumped_branch: Some(x.to_string()), custom: json!({"s": x}), ..Default::default() };
+        let z = match bind::zerv(&schema, &v) { Ok(z) => z, Err(_) => return };
+        judge_template(ctx, &z, "bumped_branch", x, "text", sets, built, st);
+        if x.len() % 3 == 0 { judge_template(ctx, &z, "custom.s", x, "custom-text", sets, built, st); }
+    });
+    // (2) values that reach the function as numbers or booleans: variables, custom JSON leaves and template literals;
+    // the function works on their decimal / textual form
+    let nums: [u64; 14] = [0, 7, 10, 12, 100, 1000, 1234, 123456, 20240131, 4294967295, 4294967296, 9007199254740993, 9223372036854775807, u64::MAX];
+    for n in nums {
+        let text = n.to_string();
+        let v = RVars { major: Some(n), distance: Some(n), bumped_timestamp: Some(n), dirty: Some(n % 2 == 0), custom: json!({"n": n, "neg": -(n.min(1 << 62) as i64), "f": (n.min(1 << 20) as f64) + 0.5, "b": n % 2 == 0}), ..Default::default() };
+        let z = match bind::zerv(&schema, &v) { Ok(z) => z, Err(e) => machinery_error(&format!("cannot build object: {e}")) };
+        for var in ["distance", "major", "bumped_timestamp", "custom.n"] { judge_template(ctx, &z, var, &text, "number", sets, built, &mut st); }
+        if n <= i64::MAX as u64 { judge_template(ctx, &z, &text, &text, "number-literal", sets, built, &mut st); }
+        judge_template(ctx, &z, "custom.neg", &(-(n.min(1 << 62) as i64)).to_string(), "negative-number", sets, built, &mut st);
+        judge_template(ctx, &z, "custom.f", &json!((n.min(1 << 20) as f64) + 0.5).to_string(), "fraction", sets, built, &mut st);
+        judge_template(ctx, &z, "custom.b", &(n % 2 == 0).to_string(), "boolean", sets, built, &mut st);
+        judge_template(ctx, &z, "dirty", &(n % 2 == 0).to_string(), "boolean", sets, built, &mut st);
+    }
+    st
 }
 
 fn main() {
@@ -157,6 +214,11 @@ fn main() {
     let built: Vec<Sanitizer> = sets.iter().map(build).collect();
 
     if let Some(case) = ctx.replay_case() {
+        if case["kind"] == "template" {
+            // the template layer is small: re-run it; the recorded class shows up again if the violation is still there
+            let _ = template_layer(&ctx, &sets, &built, &["a", "Z", "0", "1", ".", "-", "_", "é", "٣"], 3);
+            finish(&ctx, Coverage::default());
+        }
         let x = case["input"].as_str().unwrap().to_string();
         let name = case["setting"].as_str().unwrap();
         let i = sets.iter().position(|s| s.name == name).unwrap_or_else(|| machinery_error("unknown setting"));
@@ -225,15 +287,16 @@ fn main() {
     if d1.digest != d2.digest {
         machinery_error("determinism replay diverged");
     }
-    let _ = tera_sanitize;
-    let all = s9.clone().merge(s12.clone());
+    // (t) the template function sanitize(...) on text, number and boolean values
+    let stpl = template_layer(&ctx, &sets, &built, &sigma9, if ctx.quick() { 3 } else { 4 });
+    let all = s9.clone().merge(s12.clone()).merge(stpl);
     let mut cov = Coverage::default();
     cov.states = all.get("strings");
     cov.transitions = all.get("strings").saturating_sub(2);
     cov.evaluations = all.get("evaluations");
     cov.traces_validated = all.get("evaluations");
     cov.distinct_nontrivial = all.get("nontrivial_strings");
-    cov.rule = format!("every string over Sigma9={sigma9:?} up to length {l9} and over Sigma12={sigma12:?} up to length {l12} (trie, exhaustive), each under {} sanitiser settings; a string is non-trivial when it mixes ASCII alphanumerics with other characters (separators / non-ASCII), counted per alphabet", sets.len());
+    cov.rule = format!("every string over Sigma9={sigma9:?} up to length {l9} and over Sigma12={sigma12:?} up to length {l12} (trie, exhaustive), each under {} sanitiser settings; (t) the template function sanitize(...) bound to the direct call: every string up to length 3 (thorough 4) as a text value, 14 numbers (0 .. 2^64-1) reaching it as variable / custom JSON number / template literal, negative, fractional and boolean values x every expressible setting; a string is non-trivial when it mixes ASCII alphanumerics with other characters (separators / non-ASCII), counted per alphabet", sets.len());
     cov.exhaustive = true;
     cov.samples = vec![
         json!({"input": "a.00Z", "setting": sets[4].name}),
